@@ -40,7 +40,8 @@ MouseExpect(form, code, release, held) ==
             IF wheel THEN [b |-> -1, h |-> held]
             ELSE IF base % 4 = 3 THEN [b |-> 0, h |-> held]          \* motion, no button
             ELSE IF held = 1 THEN [b |-> PressButtons(base), h |-> 1]  \* drag keeps the button
-            ELSE [b |-> -1, h |-> held]                              \* button motion without a press seen
+            ELSE IF held = 0 /\ form = "sgr" THEN [b |-> 0, h |-> 0]  \* SGR: button bits in motion, but nothing is held
+            ELSE [b |-> -1, h |-> held]                              \* whether a button is held is not known
        ELSE IF wheel THEN [b |-> PressButtons(base), h |-> held]
        ELSE IF base % 4 = 3 THEN [b |-> -1, h |-> 2]                 \* "no button" press code: not defined
        ELSE [b |-> PressButtons(base), h |-> 1]
